@@ -468,6 +468,7 @@ def check_C03(tier):
             sc.traffic("C03", "mpmc", caps=caps, shapes=shapes, probe=True) +
             sc.traffic("C03", "bcast", fut=True, caps=caps[:2], shapes=shapes[:3], probe=True) +
             sc.add_stream_scn("C03a", caps=caps[:2]) + sc.remove_stream("C03r", "bcast", caps=caps[:2]) +
+            sc.add_vs_remove("C03x", caps=caps[:2]) +
             sc.population("C03p", "bcast", caps=caps[:2]))
     # capacity normalisation: requested capacities 0..9, fill a fresh queue, drain, fill again
     gens = []
@@ -498,7 +499,8 @@ def check_C04(tier):
               (1, [2, 1], 3, "recv", False, 1), (2, [2], 2, "recv", False, 2)]
     scns = (sc.traffic("C04", "bcast", caps=caps, shapes=shapes) + sc.traffic("C04", "mpmc", caps=caps, shapes=shapes) +
             sc.uni_traffic("C04", "bcast", caps=caps) + sc.uni_traffic("C04", "mpmc", caps=caps) +
-            sc.population("C04p", "bcast", caps=caps[:2]) + sc.deep_shared("C04x"))
+            sc.population("C04p", "bcast", caps=caps[:2]) + sc.deep_shared("C04x") +
+            sc.with_drop_yield(sc.uni_traffic("C04y", "mpmc", caps=caps[:2]) + sc.traffic("C04y", "bcast", caps=caps[:1])[:3]))
     return generic_check("C04", tier, ["C04", "C04C05"], scns, plans_for(tier), RULE_CONC +
                          "; the payload's Clone and the view closure contain a scheduling point, so the real code is "
                          "interleaved inside the clone/view" + RULE_IMPL,
@@ -512,7 +514,9 @@ def check_C05(tier):
             sc.traffic("C05w", "bcast", caps=caps[:2], shapes=[(1, [2], 4, "brecv", True, 0), (1, [2], 3, "recv", False, 2),
                                                                (1, [3], 3, "recv", False, 1)]) +
             sc.uni_traffic("C05", "mpmc", caps=caps[:2]) + sc.population("C05p", "mpmc", caps=caps[:2]) +
-            sc.disconnect("C05d", "mpmc", caps=caps[:2]) + sc.known_mpmc_two_streams("C05k"))
+            sc.disconnect("C05d", "mpmc", caps=caps[:2]) + sc.known_mpmc_two_streams("C05k") +
+            sc.with_drop_yield(sc.uni_traffic("C05y", "mpmc", caps=caps[:2]) + sc.uni_traffic("C05y", "bcast", caps=caps[:1]) +
+                               sc.traffic("C05y", "mpmc", caps=caps[:1])[:3]))
     depth = 4 if tier == "quick" else 5
     gens = []
     for (fam, fut) in FAMILIES:
@@ -530,7 +534,8 @@ def check_C06(tier):
     caps = caps_for(tier)
     scns = (sc.traffic("C06", "bcast", caps=caps, probe=True) + sc.traffic("C06", "mpmc", caps=caps, probe=True) +
             sc.remove_stream("C06r", "bcast", caps=caps[:2]) + sc.population("C06p", "bcast", caps=caps[:2]) +
-            sc.population("C06p", "mpmc", caps=caps[:2]) + sc.add_stream_scn("C06a", caps=caps[:2]))
+            sc.population("C06p", "mpmc", caps=caps[:2]) + sc.add_stream_scn("C06a", caps=caps[:2]) +
+            sc.add_vs_remove("C06x", caps=caps[:2]))
     return generic_check("C06", tier, ["C06", "C01C06"], scns, plans_for(tier), RULE_CONC +
                          "; every scenario ends with all threads joined and a single-threaded probe (drain every stream "
                          "to Empty, send until Full), whose calls are not overlapped and must equal the model exactly"
@@ -563,6 +568,7 @@ def check_C10(tier):
     caps = caps_for(tier)
     scns = (sc.add_stream_scn("C10", caps=caps) + sc.add_stream_scn("C10", caps=caps[:2], fut=True) +
             sc.add_stream_scn("C10", caps=caps[:2], shared_parent=True) + sc.many_parked("C10p", counts=(2, 3)) +
+            sc.add_vs_remove("C10x", caps=caps[:2]) +
             sc.added_stream_waits("C10w", caps=caps[:2]))
     # a futures stream created by add_stream that is never woken does not "deliver every value from there on"
     return generic_check("C10", tier, ["C01C02", "C03", "C06", "C01C06", "C01C07", "C14", "C07C14"], scns, plans_for(tier), RULE_CONC + RULE_IMPL,
@@ -571,7 +577,8 @@ def check_C10(tier):
 
 def check_C11(tier):
     caps = caps_for(tier)
-    scns = (sc.remove_stream("C11", "bcast", caps=caps) + sc.remove_stream("C11", "bcast", caps=caps[:2], fut=True))
+    scns = (sc.remove_stream("C11", "bcast", caps=caps) + sc.remove_stream("C11", "bcast", caps=caps[:2], fut=True) +
+            sc.add_vs_remove("C11x", caps=caps[:2]))
     return generic_check("C11", tier, ["C11", "C06", "C03", "C01C02", "C08", "C14", "C07C08", "C07C14", "C01C06"], scns, plans_for(tier),
                          RULE_CONC + RULE_IMPL, models=[impl_model_stage(["rmstream", "unsub2"])])
 
